@@ -527,7 +527,10 @@ func (a *actor) engineTxn(op *Op) *CallRec {
 				e.probe("engine-txn-step-failed:" + st.K)
 				if after := catalogDump(txn.Catalog(), true); single && after != before {
 					e.violate(violation("C02", "failed-write-left-trace", "engine-transaction:"+st.K, fmt.Sprintf("inside an engine-level transaction %s failed with %v but changed the transaction's catalog:\n--- before\n%s--- after\n%s", opStr(st), serr, clip(before), clip(after))))
-					return
+					if e.plan.Prop == "C02" {
+						return
+					}
+					// (another property is under test: go on and commit, its own monitors look at the result)
 				}
 			}
 		}
